@@ -13,8 +13,8 @@ EXPLANATION = (
     "shares_available()[best][0]/[2] = (number of distinct shnums, N of the verinfo); (2) _got_mapupdate_results leaves "
     "need_repair False only under the same three facts; check-and-repair never passes force; (3) "
     "Repairer._got_full_servermap reaches download_version / node.upload only with best version non-empty, "
-    "(not unrecoverable_newer_versions() or force), (not needs_merge() or force) and a writekey; force travels "
-    "unchanged from MutableFileNode.repair; (4) what is republished is download_version(smap, "
+    "(not unrecoverable_newer_versions() or force), (not needs_merge() or force); force travels "
+    "unchanged from MutableFileNode.repair (default False); (4) what is republished is download_version(smap, "
     "smap.best_recoverable_version()) wrapped in MutableData and handed to node.upload with the same servermap; "
     "best_recoverable_version is the maximum of the recoverable versions; (5) Publish.publish adds every "
     "get_bad_shares() key to the goal and writes it with the recorded old checkstring; mark_bad_share records the "
@@ -368,7 +368,7 @@ def run(ctx: Context):
 
     # -- 3. repair refusal gates -----------------------------------------------
     with ctx.rule("C14.3", "R1", "_got_full_servermap: download_version / node.upload only with a best version, (not "
-                  "unrecoverable_newer_versions() or force), (not needs_merge() or force), and a writekey", expected=4) as r:
+                  "unrecoverable_newer_versions() or force), (not needs_merge() or force)", expected=3) as r:
         fn = idx.func(REP + "._got_full_servermap")
         ps = first_positional_params(fn)
         if len(ps) < 2:
@@ -403,8 +403,6 @@ def run(ctx: Context):
              lambda op, l, rr: (op == "false" and l == "%s.unrecoverable_newer_versions()" % smap) or forced(op, l)),
             ("no merge is needed (no competing recoverable versions with one seqnum), or force was given",
              lambda op, l, rr: (op == "false" and l == "%s.needs_merge()" % smap) or forced(op, l)),
-            ("the node has a writekey",
-             lambda op, l, rr: op == "truth" and l == "self.node.get_writekey()"),
         ]
         for (what, pred) in gates:
             r.site(fn, None, "gate: " + what)
@@ -425,8 +423,6 @@ def run(ctx: Context):
                       "Repairer.start hands force=%s to _got_full_servermap" % (src(st, x.args[0]) if x.args else "nothing"))
         for n in st.cfg().find(stores(sforce[0])):
             r.violation(st, st.loc(n.ast), "Repairer.start overwrites its force argument")
-        d = st.node.args.defaults
-        r.require(len(d) == 1 and isinstance(d[0], ast.Constant) and d[0].value is False, st, st.loc(), "Repairer.start(force) does not default to False")
         nr = idx.func(NODE + ".repair")
         np_ = first_positional_params(nr)
         for c in calls_in_func(nr, "start"):
